@@ -1,0 +1,30 @@
+//go:build verif
+
+package lnd
+
+import (
+	"context"
+
+	"github.com/btcsuite/btcd/chaincfg"
+	"github.com/lightningnetwork/lnd/lnrpc"
+	"github.com/lightningnetwork/lnd/lnrpc/chainrpc"
+)
+
+// Verification hook (build tag verif, add-only): a TxWatcher over injected
+// (fake) lnd RPC clients, so that the confirmation / csv decisions of the lnd
+// back-end's watcher can be observed without a node.
+func VerifNewTxWatcher(ctx context.Context, lnrpcClient lnrpc.LightningClient, chainrpcClient chainrpc.ChainNotifierClient,
+	network *chaincfg.Params, targetConfirmation, targetCsv uint32) *TxWatcher {
+	ctx, cancel := context.WithCancel(ctx)
+	return &TxWatcher{
+		ctx:                  ctx,
+		cancel:               cancel,
+		lnrpcClient:          lnrpcClient,
+		chainrpcClient:       chainrpcClient,
+		network:              network,
+		targetConfs:          targetConfirmation,
+		targetCsv:            targetCsv,
+		confirmationWatchers: make(map[string]bool),
+		waitForCsvWatchers:   make(map[string]bool),
+	}
+}
